@@ -11,7 +11,9 @@ SumSeq(s) == LET S[j \in 0..Len(s)] == IF j = 0 THEN 0 ELSE S[j - 1] + s[j] IN S
 Kept(d, c) == IF c.keepinf = 0 THEN SelectSeq(d, LAMBDA bar : bar[3] = 1)
               ELSE [j \in 1..Len(d) |-> <<d[j][1], IF d[j][3] = 0 THEN c.vi ELSE d[j][2], 1>>]
 Lens(d) == [j \in 1..Len(d) |-> d[j][2] - d[j][1]]
-MustRaise(c) == (c.keepinf = 1 /\ c.hasvi = 0) \/ \E q \in 1..Len(c.dgms) : \E j \in 1..Len(Kept(c.dgms[q], c)) : Lens(Kept(c.dgms[q], c))[j] <= 0
+\* keep_inf without a substitution value is not covered by the property (the code raises; any outcome is accepted)
+Unspecified(c) == c.keepinf = 1 /\ c.hasvi = 0
+MustRaise(c) == \E q \in 1..Len(c.dgms) : \E j \in 1..Len(Kept(c.dgms[q], c)) : Lens(Kept(c.dgms[q], c))[j] <= 0
 Kraft(ls) == LET T == SumSeq(ls) IN \A j \in 1..Len(ls) : T % ls[j] = 0 /\ IsPow2(T \div ls[j])
 AllEqual(ls) == \A a, b \in 1..Len(ls) : ls[a] = ls[b]
 \* exact entropy of a dyadic family: ln 2 * sum_i k_i l_i / T
@@ -35,7 +37,8 @@ ValueClause(c, q) ==
         ELSE IF ~(FLeq(FNeg(TolE), e) /\ FLeq(e, FAdd(FInt(1), TolE))) THEN "normalised-entropy-outside-unit-interval"
         ELSE "ok")
 Verdict(c) ==
-  IF MustRaise(c) THEN (IF c.raised = 1 THEN <<"ok", "error-outcome", 0>> ELSE <<"fail", "non-positive-bar-or-missing-val_inf-did-not-raise", 0>>)
+  IF Unspecified(c) THEN <<"ok", "unspecified-keep_inf-without-value", 0>>
+  ELSE IF MustRaise(c) THEN (IF c.raised = 1 THEN <<"ok", "error-outcome", 0>> ELSE <<"fail", "non-positive-bar-or-missing-val_inf-did-not-raise", 0>>)
   ELSE IF c.raised = 1 THEN <<"fail", "raised-on-valid-input", 0>>
   ELSE IF Len(c.vals) # Len(c.dgms) THEN <<"fail", "not-one-value-per-diagram", 0>>
   ELSE LET bad == {q \in 1..Len(c.dgms) : ValueClause(c, q) # "ok"} IN
